@@ -19,7 +19,7 @@ import dlib  # noqa: E402
 logging.disable(logging.CRITICAL)
 
 from traits.api import (  # noqa: E402
-    Dict, HasTraits, Instance, Int, List, Property, Set, Str, Undefined, cached_property)
+    Any, ComparisonMode, Dict, HasTraits, Instance, Int, List, Property, Set, Str, Undefined, cached_property)
 
 GETTER = {}      # (id(obj), name) -> calls
 DELIVERED = {}   # id(obj) -> {name: calls}
@@ -37,6 +37,8 @@ class Node(HasTraits):
     m = Dict(Str, Instance(HasTraits))
     s = Set(Instance(HasTraits))
     nums = List(Int)
+    # a dependency compared by identity: an equal but distinct value IS a change (1 -> 1.0 -> True)
+    raw = Any(1, comparison_mode=ComparisonMode.identity)
 
 
 def f_scalar(o):
@@ -85,6 +87,16 @@ def f_sitems(o, idx):
     return sum(idx.get(id(v), -9) + 1 for v in o.s) + 50 * len(o.s)
 
 
+def f_raw(o):
+    # sensitive to the type of the value, not only to its equality class
+    v = o.raw
+    return [int, float, bool].index(type(v)) * 10 + int(v)
+
+
+RAW_VALUES = [lambda: 1, lambda: float("1.0"), lambda: True, lambda: 2, lambda: float("2.0"), lambda: False,
+              lambda: 0, lambda: float("0.0")]
+
+
 def f_inner(o):
     return o.value // 2
 
@@ -108,6 +120,7 @@ PROPS = {
     "chain": ("c_inner", f_chain),
     "mitems": ("m.items", None),
     "sitems": ("s.items", None),
+    "raw": ("raw", f_raw),
 }
 IDX = {}          # id(obj) -> pool index of the case being run (for the identity-dependent getters)
 IDFUNS = {"mitems": f_mitems, "sitems": f_sitems}
@@ -146,6 +159,22 @@ _ns["__module__"] = __name__
 Root = type("Root", (Node,), _ns)
 
 
+def _mk_sub(name, fn):
+    def getter(self):
+        bump(self, "u_" + name)
+        if fn is None:
+            return IDFUNS[name](self, IDX)
+        return fn(self)
+    getter.__name__ = "_get_u_%s" % name
+    return cached_property(getter)
+
+
+# a subclass that overrides ONLY the getter methods of the inherited (uncached) observed properties and
+# marks them @cached_property; the Property declarations themselves are inherited
+RootSub = type("RootSub", (Root,), dict([("_get_u_" + _n, _mk_sub(_n, _fn)) for _n, (_e, _fn) in PROPS.items()]
+                                        + [("__module__", __name__)]))
+
+
 # ---------- from-scratch view of what the observe expression matches ----------
 PATHS = {
     "scalar": [["value"]], "child": [["child", "value"]], "kids": [["kids", "*", "value"]],
@@ -154,6 +183,7 @@ PATHS = {
     "multi": [["value"], ["child", "value"], ["nums", "*"]],
     "mitems": [["m", "*"]], "sitems": [["s", "*"]],
 }
+# (the "raw" and "chain" shapes have their own view below)
 TCODE = {"value": 1, "other": 2, "child": 3, "kids": 4, "m": 5, "s": 6, "nums": 7}
 
 
@@ -201,6 +231,8 @@ def walk(obj, path, idx, matched, view):
 
 
 def snapshot_view(root, pname, idx):
+    if pname == "raw":
+        return {("t", id(root), "raw")}, [-7, f_raw(root)]
     if pname == "chain":
         # the dependency is itself a property: its value is the view, `value` is what a mutation touches
         return {("t", id(root), "value")}, [-7, f_inner(root)]
@@ -213,7 +245,9 @@ def snapshot_view(root, pname, idx):
 
 def run_case(case):
     pname, cached = case["prop"], case["cached"]
-    attr = ("c_" if cached else "u_") + pname
+    sub = bool(case.get("sub"))
+    RootCls = RootSub if sub else Root
+    attr = ("u_" if (sub or not cached) else "c_") + pname
     fn = PROPS[pname][1]
     if fn is None:
         def fn(o, _f=IDFUNS[pname]):
@@ -228,9 +262,9 @@ def run_case(case):
                       s=set(pool[j] for j in d["s"]), nums=list(d["nums"]))
             if d.get("child") is not None:
                 kw["child"] = pool[d["child"]]
-            pool[i] = (Root if i == 0 else Node)(**kw)
+            pool[i] = (RootCls if i == 0 else Node)(**kw)
     else:
-        pool = [Root()] + [Node() for _ in range(n - 1)]
+        pool = [RootCls()] + [Node() for _ in range(n - 1)]
         for i, d in enumerate(case["init"]):
             o = pool[i]
             o.value = d["value"]
@@ -240,14 +274,31 @@ def run_case(case):
             o.m = {k: pool[j] for k, j in d["m"]}
             o.s = set(pool[j] for j in d["s"])
             o.nums = list(d["nums"])
-    events = []
+    listeners = []      # [style, callable, events seen] in attachment order
 
     def canon(v):
         # values are ints; anything else (Undefined, None ...) is reported as a sentinel
         return v if type(v) is int else -99999
 
-    def listener(event):
-        events.append([None if event.old is Undefined else canon(event.old), canon(event.new)])
+    def make_listener(style):
+        seen = []
+        if style == "observe":
+            def fn(event):
+                seen.append([None if event.old is Undefined else canon(event.old), canon(event.new)])
+        else:
+            # legacy on_trait_change handler with the (object, name, old, new) signature
+            def fn(obj, name, old, new):
+                seen.append([None if old is Undefined else canon(old), canon(new)])
+        return [style, fn, seen]
+
+    def events_seen():
+        # what ONE listener received; all listeners must have received the same
+        if not listeners:
+            return []
+        first = [list(e) for e in listeners[0][2]]
+        if any([list(e) for e in l_[2]] != first for l_ in listeners[1:]):
+            return first + [[None, -77777]]
+        return first
 
     def idx_of():
         d_ = {id(o): i for i, o in enumerate(pool)}
@@ -270,7 +321,8 @@ def run_case(case):
     matched, view0 = snapshot_view(pool[0], pname, idx_of())
     out = {"init_view": view0, "init_oracle": fn(pool[0]), "hist": []}
     for op in case["ops"]:
-        del events[:]
+        for l_ in listeners:
+            del l_[2][:]
         g0, d0 = gcount(), dcount()
         k = op[0]
         val, touched, err = None, None, None
@@ -278,9 +330,18 @@ def run_case(case):
             if k == "Read":
                 val = canon(getattr(pool[0], attr))
             elif k == "Listen":
-                pool[0].observe(listener, attr)
+                l_ = make_listener(op[1] if len(op) > 1 else "observe")
+                if l_[0] == "observe":
+                    pool[0].observe(l_[1], attr)
+                else:
+                    pool[0].on_trait_change(l_[1], attr)
+                listeners.append(l_)
             elif k == "Unlisten":
-                pool[0].observe(listener, attr, remove=True)
+                l_ = listeners.pop()
+                if l_[0] == "observe":
+                    pool[0].observe(l_[1], attr, remove=True)
+                else:
+                    pool[0].on_trait_change(l_[1], attr, remove=True)
             elif k == "Copy":
                 mode = op[1]
                 if mode == "pickle":
@@ -293,13 +354,17 @@ def run_case(case):
                     newpool = [memo.get(id(o), o) for o in pool]
                     newpool[0] = newroot
                 pool[:] = newpool
+                del listeners[:]          # dynamic listeners are not part of a copy
                 idx_of()
                 g0, d0 = gcount(), dcount()
             else:
                 # a mutation: ["Set", i, trait, v] / list, dict, set operations
                 o = pool[op[1]]
                 matched, _ = snapshot_view(pool[0], pname, idx_of())
-                if k == "Set":
+                if k == "SetRaw":
+                    touched = ("t", id(o), "raw") in matched
+                    o.raw = RAW_VALUES[op[2]]()
+                elif k == "Set":
                     tr, v = op[2], op[3]
                     touched = ("t", id(o), tr) in matched
                     if tr in ("value", "other"):
@@ -350,11 +415,16 @@ def run_case(case):
                         c.discard(pool[a[0]])
                     else:
                         raise ValueError(k)
-        except (IndexError, KeyError, ValueError) as e:
+        except Exception as e:  # noqa: a violating implementation must yield an observation, not a crash
             err = type(e).__name__
-        _, view = snapshot_view(pool[0], pname, idx_of())
-        out["hist"].append({"val": val, "oracle": fn(pool[0]), "view": view, "getter": gcount() - g0,
-                            "events": [list(e) for e in events], "delivered": dcount() - d0,
+        try:
+            _, view = snapshot_view(pool[0], pname, idx_of())
+            oracle = canon(fn(pool[0]))
+        except Exception as e:  # noqa
+            view, oracle = [-1], -88888
+            err = err or ("oracle:" + type(e).__name__)
+        out["hist"].append({"val": val, "oracle": oracle, "view": view, "getter": gcount() - g0,
+                            "events": events_seen(), "delivered": dcount() - d0,
                             "cache": cache_slot(), "touched": touched, "err": err})
     return out
 
